@@ -17,12 +17,13 @@ type Gen struct {
 	serial   int
 	MaxDepth int
 	// knobs
-	NoEmail    bool // never produce e-mail class
-	NoEmpty    bool // never produce the empty string
-	PlainOnly  bool // only ASCII tokens (for plan summaries etc.)
-	LongMax    int  // max length of "long" strings (0 = 600)
-	Fields     []string
-	fieldsUsed map[string]bool
+	NoEmail         bool // never produce e-mail class
+	NoEmpty         bool // never produce the empty string
+	PlainOnly       bool // only ASCII tokens (for plan summaries etc.)
+	LongMax         int  // max length of "long" strings (0 = 600)
+	Fields          []string
+	NoKeywordFields bool // never use keyword-like user field names
+	fieldsUsed      map[string]bool
 }
 
 func New(seed int64) *Gen {
@@ -34,7 +35,23 @@ func (g *Gen) pick(ss ...string) string { return ss[g.R.Intn(len(ss))] }
 func (g *Gen) chance(p float64) bool    { return g.R.Float64() < p }
 func (g *Gen) rng(lo, hi int) int       { return lo + g.R.Intn(hi-lo+1) }
 
+// KeywordFields are user field names that coincide with option / operator
+// keywords of the query, aggregation and search grammars (a collection may
+// well have fields called "text", "index", "limit", "path", "numBuckets" …).
+var KeywordFields = func() []string {
+	var k []string
+	for _, w := range DriverVocabulary {
+		if !strings.HasPrefix(w, "$") {
+			k = append(k, w)
+		}
+	}
+	return k
+}()
+
 func (g *Gen) Field() string {
+	if !g.NoKeywordFields && g.R.Intn(16) == 0 {
+		return KeywordFields[g.R.Intn(len(KeywordFields))]
+	}
 	return g.Fields[g.R.Intn(len(g.Fields))]
 }
 
